@@ -20,10 +20,18 @@ CLAIMED = {
          "IQR operations (NumberOfRecords/Discard/DiscardAfter/Append) are ASSUMED contracts over an abstract interval view; NaN excluded; compareValues' rank/typing logic (strings, interface values) not covered"),
  "C06": ("4 C06", "Chunk invariance of head, tail and scroll: each processor's cross-batch state is proved to be a function of the number of records seen only (tail: finalIqr is always the last min(seen,TailRows) records; head: union of outputs is the first MaxRows; scroll: skipped prefix), over the interval view of an IQR. The other commands of the property (where/eval/dedup/stats/...) are not decided.",
          "IQR operations are ASSUMED contracts over an abstract interval view; stream positions below 2^60; batches arrive in stream order (adjacency precondition)"),
+ "C13": ("4 C13", "Segment-selection guard: every rotated or open segment handed to a search, and every column name collected for it, is proved (path-condition contracts at the insertion sites, loop invariant for the index-name match) to belong to the requesting organisation, to a requested index and to overlap the query time range. Index-name expansion (wildcards, aliases), metrics queries and deletion are not decided.",
+         "map iteration is abstracted (arbitrary order/elements); ExpandAndReturnIndexNames, alias maps and deletion not covered"),
+ "C14": ("4 C14", "Victim-selection guard of the time-based retention pass: a log or metrics segment is put on the deletion list only if its newest event is at or before the horizon (no arithmetic overflow in the second->millisecond conversion) and only entries of the requesting organisation are considered. The converse direction (every expired segment is deleted), interruption/repetition, files and blob store are not decided.",
+         "segment metadata readers and the sort are external (arbitrary results); volume- and inode-based passes not covered"),
+ "C15": ("4 C15", "Acknowledgement bookkeeping of the bulk handler: the response's errors flag is proved equal to 'some item was stored with a failure status' (ghost flag + loop invariant over the request loop, all bodies), a created status is stored only for a successful item, and line splitting partitions the body around the first newline. Whether a created document becomes searchable is not decided.",
+         "JSON parsing, PLE creation and the store are external calls (arbitrary results, ghost state preserved); failures of ProcessIndexRequestPle after statuses were assigned (acknowledged TODO in the code) not covered"),
  "C16": ("4 C16", "Event-time normalisation: a numeric timestamp in seconds / milliseconds / nanoseconds is stored as its millisecond (logs) or second (Prometheus remote write) instant for all 2^64 values, and the JSON number path of ExtractTimeStamp agrees with the string path (ghost-linked contracts). Attribute/field preservation through the protocol decoders is not decided.",
          "the magnitude band [1e14,1e18) is treated as milliseconds by both paths (no microsecond case exists); jsonparser/strconv are external (results arbitrary); RFC3339 parsing not covered"),
  "C18": ("4 C18", "Decoders of the files that carry no checksum must not panic on arbitrary bytes: the block-summary readers (.bsu, .mbsu) and the timestamp-column decoder are proved free of index/slice/nil panics for every file content and length (unbounded loops with inductive invariants), and the timestamp decoder is proved to return lowTs + the stored offset for every record. Checksummed column blocks, zstd and whole-query behaviour are not decided.",
          "file I/O results are arbitrary (os.File.Read/ReadAt, FileInfo.Size assumed 0 <= n <= len); dictionary rank values of the column-name map assumed small (explicit site assumption); decoders that only see CRC-verified blocks are checked under their well-formedness precondition in C01, not here"),
+ "C19": ("4 C19", "Confinement of client-supplied names as a sanitiser discipline for lookup files and dashboards: every os.* call of the upload/get/delete lookup handlers and of the dashboard read/write paths is proved to take a path built from a trusted directory and a name that passed the validator (uninterpreted safeName/confined predicates; appending a separator-free literal keeps a name safe, decided on the literal's text). Index/alias/saved-query/scroll names, URL decoding and symlinks are not decided.",
+         "the validator's and filepath.Join's string-level meaning is ASSUMED; only the handlers listed in the evidence are covered"),
  "C20": ("4 C20", "Alert state machine kernels: threshold conditions equal the configured comparison, Firing requires the current and the N-1 previous evaluations Pending/Firing (loop invariant over the history rows), the new state is Normal iff the condition did not hold and a notification is attempted exactly on Firing/Normal, the notification gate follows its decision table, no division by a zero interval. The keyed-store half of the property is not decided.",
          "history store (sqlite/gorm) ASSUMED to return non-nil rows; time.Now-based cool-down observers assumed pure; saved objects/dashboards/aliases CRUD not covered"),
 }
